@@ -227,6 +227,9 @@ def build_item(spec, ver):
         return kdrv.get(sid(spec['tgt_uid']), wrap=wrap_spec(sid(spec['w_uid'])))
     if o == 'locate':
         return kdrv.locate()
+    if o == 'locatep':
+        flt = [kdrv.attr('OBJECT_TYPE', TYPES[spec['ft']])] if spec.get('ft') else []
+        return kdrv.locate(attrs=flt, offset=spec.get('off'), maximum=spec.get('mx'))
     if o == 'discover':
         return kdrv.discover_versions([tuple(v) for v in spec['vs']])
     if o == 'query':
@@ -249,7 +252,7 @@ def classify(spec, it):
             return ('RIssued', [canon(p['unique_identifier'])])
         if o == 'destroy':
             return ('RDestroyed', canon(p['unique_identifier']))
-        if o == 'locate':
+        if o in ('locate', 'locatep'):
             return ('RLocated', sorted(canon(x) for x in (p.get('unique_identifiers') or [])))
         if o == 'discover':
             return ('RVersions', [10 * v['major'] + v['minor'] for v in (p.get('protocol_versions') or [])])
@@ -415,15 +418,46 @@ class Runner:
         self.coq.append(('ERestart', 'Ob (Some []) %s %s' % (zt(after_next), cp.lst(after_uids, zt))))
         self.events.append({'ev': 'restart'})
 
-    def request(self, who, ver, cont, specs):
-        """who: index into USERS; specs: abstract items with symbolic targets (resolved now)."""
+    def short_busy_timeout(self):
+        """Every connection the engine opens from now on gives up on a locked database after 60 ms."""
+        import sqlalchemy
+        ds = self.eng.engine._data_store
+        if not getattr(ds, '_verif_short_busy', False):
+            sqlalchemy.event.listen(ds, 'connect', lambda dbapi_con, rec: dbapi_con.execute('PRAGMA busy_timeout=60'))
+            ds._verif_short_busy = True
+            ds.dispose()
+
+    def request(self, who, ver, cont, specs, locked=False):
+        """who: index into USERS; specs: abstract items with symbolic targets (resolved now).
+        locked: a second SQLite connection (a backup job, an sqlite3 shell) holds a read transaction on the file while the
+        request is served, so that every COMMIT of the request is refused with 'database is locked'."""
         eng, tr = self.eng, self.tr
         conc = [concretize(self, s) for s in specs]
 
         items = [build_item(c, ver) for c in conc]
         before = eng.dump() if self.oracle else None
-        r = eng.request(items, version=ver, user=identity(who)[0], groups=identity(who)[1],
-                        batch_option=(enums.BatchErrorContinuationOption.CONTINUE if cont else None))
+        blocker = None
+        if locked:
+            import sqlite3
+            self.short_busy_timeout()
+            blocker = sqlite3.connect(eng.path, isolation_level=None, timeout=0.05)
+            blocker.execute('BEGIN')
+            blocker.execute('select count(*) from sqlite_master').fetchall()
+            self.ctx.count('event.request.commit_refused')
+        try:
+            r = eng.request(items, version=ver, user=identity(who)[0], groups=identity(who)[1],
+                            batch_option=(enums.BatchErrorContinuationOption.CONTINUE if cont else None))
+        except Exception as e:
+            # process_request let something other than a KmipError escape (the session answers GENERAL_FAILURE for the whole
+            # message): recorded as a request-level failure - the model has none here, so the correspondence will object -
+            # and the history goes on, so that the identifier oracles still see what the store looks like afterwards
+            self.ctx.count('request.escaped.%s' % type(e).__name__)
+            r = {'error': {'reason': 'GENERAL_FAILURE', 'status': 'OPERATION_FAILED',
+                           'message': 'process_request raised %s' % type(e).__name__}, 'items': [], 'raw': None}
+        finally:
+            if blocker is not None:
+                blocker.rollback()
+                blocker.close()
         after_next, after_uids = eng.next_uid(), eng.uids()
         ev_index = len(self.events)
         vz = ver[0] * 10 + ver[1]
@@ -443,7 +477,7 @@ class Runner:
         ev = 'Rq %d %d %s %s' % (who, vz, cp.boolean(cont), cp.lst(item_terms, str))
         rs = 'None' if r['error'] is not None else '(Some %s)' % cp.lst([resp_term(c) for c in classes], str)
         self.coq.append((ev, 'Ob %s %s %s' % (rs, zt(after_next), cp.lst(after_uids, zt))))
-        self.events.append({'ev': 'req', 'who': who, 'ver': list(ver), 'cont': cont, 'items': [strip(c) for c in conc],
+        self.events.append({'ev': 'req', 'who': who, 'ver': list(ver), 'cont': cont, 'locked': locked, 'items': [strip(c) for c in conc],
                             'error': r['error'], 'next_uid': after_next, 'uids': after_uids})
         self.ctx.count('event.request')
         if r['error'] is not None:
@@ -523,6 +557,12 @@ class Runner:
 
     def oracle_tables(self, ev_index, before, conc, classes, after_uids):
         dead_now = [cl[1] for cl in classes if cl[0] == 'RDestroyed']
+        for cl in classes:
+            if cl[0] == 'RIssued':
+                for u in cl[1]:
+                    if u not in after_uids and u not in dead_now:
+                        self.hit({'kind': 'issued-missing'}, 'identifier %d was answered as created but managed_objects has no row for it' % u,
+                                 ev_index, {'identifier': u})
         for u in self.tr.destroyed:
             if u in after_uids:
                 self.hit({'kind': 'dead-row'}, 'managed_objects still (or again) holds a row for destroyed identifier %d' % u, ev_index,
@@ -572,6 +612,9 @@ def op_term(c):
         return '(OGetWrapped %s %s)' % (opt_z(c['tgt_uid']), zt(c['w_uid']))
     if o == 'locate':
         return 'OLocate'
+    if o == 'locatep':
+        return '(OLocatePage %s %d %s)' % ('(Some %s)' % c['ft'] if c.get('ft') else 'None', c.get('off') or 0,
+                                           'None' if c.get('mx') is None else '(Some %d)' % c['mx'])
     if o == 'discover':
         return '(ODiscover %s)' % cp.lst([10 * a + b for a, b in c['vs']], zt)
     if o == 'query':
@@ -602,6 +645,11 @@ def gen_info_spec(rng):
         return {'op': 'discover', 'vs': [list(v) for v in vs]}
     k = rng.randrange(1, 4)
     return {'op': 'query', 'funcs': rng.sample(QUERY_FUNCTIONS, k)}
+
+
+def gen_locate_page(rng, off=None):
+    return {'op': 'locatep', 'ft': rng.choice([None, None, 'TSym', 'TOpaque', 'TPub']),
+            'off': rng.choice([0, 1, 2, 3, 5]) if off is None else off, 'mx': rng.choice([None, 1, 2, 3])}
 
 
 def gen_create_spec(rng, tr, cheap=True):
@@ -727,6 +775,36 @@ def gen_history(ctx, rng, run, length, ckp_budget, kill_budget=2):
                 run.killed_request(owner_of(tr, eng, tgt, rng), ver, {'op': 'destroy', 'tgt': tgt}, point)
             run.request(pick_who(rng), pick_version(rng), False, [creating()])
             n += 2
+        elif x < 0.185 and tr.live():                  # un-offset Locate, Destroy, then paged Locates of the same client
+            ctx.count('pattern.locate_destroy_paged_locate')
+            rec = rng.choice(tr.live())
+            who = rec['owner']
+            first = gen_locate_page(rng, off=0)
+            run.request(who, ver, False, [first])
+            run.request(who, ver, False, [{'op': 'destroy', 'tgt': ['lit', rec['uid']]}])
+            for _ in range(rng.randrange(1, 4)):
+                nxt = dict(first, off=rng.choice([1, 2, 3]), mx=rng.choice([first['mx'], None, 2]))
+                if rng.random() < 0.25:
+                    nxt['ft'] = rng.choice([None, 'TSym'])
+                run.request(who, ver, False, [nxt])
+            n += 3
+        elif x < 0.20:                                 # the COMMIT of a request is refused (database locked by someone else)
+            ctx.count('pattern.commit_refused')
+            y = rng.random()
+            if y < 0.45:
+                items, who = [creating(cheap=True)], pick_who(rng)
+            elif y < 0.8:
+                tgt = gen_target(rng, tr, allow_none=False, dead_bias=0.0)
+                items, who = [{'op': 'destroy', 'tgt': tgt}], owner_of(tr, eng, tgt, rng)
+            else:
+                tgt = gen_target(rng, tr, allow_none=False, dead_bias=0.0)
+                items = [{'op': 'addr', 'k': rng.choice(['AActivate', 'ARevoke', 'AModifyAttribute', 'ADeleteAttribute']), 'tgt': tgt,
+                          'variant': rng.randrange(4)}]
+                who = owner_of(tr, eng, tgt, rng)
+            run.request(who, (1, 2), False, items, locked=True)
+            run.request(pick_who(rng), pick_version(rng), False, [creating(cheap=True)])
+            run.request(who, (1, 2), False, [{'op': 'locate'}])
+            n += 3
         elif x < 0.22:                                 # restart, then create
             ctx.count('pattern.restart_then_create')
             run.restart(dispose=rng.random() < 0.5)
@@ -761,7 +839,8 @@ def gen_history(ctx, rng, run, length, ckp_budget, kill_budget=2):
             run.request(who, ver, False, [{'op': 'destroy', 'tgt': tgt}])
             n += 1
         elif x < 0.70:
-            run.request(pick_who(rng), ver, False, [{'op': 'locate'} if rng.random() < 0.7 else gen_info_spec(rng)])
+            y = rng.random()
+            run.request(pick_who(rng), ver, False, [{'op': 'locate'} if y < 0.4 else (gen_locate_page(rng) if y < 0.75 else gen_info_spec(rng))])
             n += 1
         elif x < 0.76:                                 # Get wrapped: target and wrapping key chosen independently
             tgt = gen_target(rng, tr, allow_none=False, dead_bias=0.2)
@@ -858,6 +937,28 @@ def scenarios():
             sc.append(('req', 1, (1, 4), False, [dict(maker, prot=[kind])]))
     sc.append(('req', 1, (1, 2), False, [C]))
     out.append(sc)
+    # paged Locate around a Destroy: an un-offset Locate before it, then the same client's Locates with an offset
+    LP = lambda ft, off, mx: {'op': 'locatep', 'ft': ft, 'off': off, 'mx': mx}
+    sc = [('req', 0, (1, 2), False, [C]) for _ in range(6)]
+    sc += [('req', 0, (1, 2), False, [LP(None, 0, 2)]), ('req', 0, (1, 2), False, [LP('TSym', 0, None)]),
+           ('req', 0, (1, 2), False, [D(['ref', 2])])]
+    for ft, off, mx in ((None, 2, 2), (None, 1, None), ('TSym', 2, 2), ('TSym', 0, 3), (None, 0, None), ('TOpaque', 1, 1), (None, 2, 2)):
+        sc.append(('req', 0, (1, 2), False, [LP(ft, off, mx)]))
+    sc += [('restart',), ('req', 0, (1, 2), False, [LP(None, 2, 2)]), ('req', 1, (1, 2), False, [LP(None, 0, 2)])]
+    out.append(sc)
+    # the COMMIT of each kind of operation is refused once (a second connection holds the database), then things go on
+    LK = {'locked': True}
+    sc = [('req', 0, (1, 2), False, [C]), ('req', 0, (1, 2), False, [C]), ('req', 0, (1, 2), False, [C])]
+    for maker in (C, {'op': 'register', 't': 'TOpaque', 'good': True}, {'op': 'register', 't': 'TCert', 'good': True},
+                  {'op': 'derive', 'bases': [['ref', 0]], 't': 'TSym', 'good': True}, {'op': 'ckp', 'good': True}):
+        sc += [('req', 0, (1, 2), False, [maker], LK), ('req', 0, (1, 2), False, [{'op': 'locate'}]), ('req', 1, (1, 2), False, [C]),
+               ('req', 1, (1, 2), False, [G(['newest'])])]
+    sc += [('req', 0, (1, 2), False, [D(['ref', 1])], LK), ('req', 0, (1, 2), False, [G(['ref', 1]), {'op': 'locate'}]),
+           ('req', 0, (1, 2), False, [D(['ref', 1])]), ('req', 0, (1, 2), False, [G(['ref', 1])]),
+           ('req', 0, (1, 2), False, [G(['ref', 2], 'AActivate')], LK), ('req', 0, (1, 2), False, [D(['ref', 2])]),
+           ('req', 0, (1, 2), True, [C, D(None), C], LK), ('req', 0, (1, 2), False, [C]), ('restart',),
+           ('req', 0, (1, 2), False, [{'op': 'locate'}]), ('req', 0, (1, 2), False, [C])]
+    out.append(sc)
     # the server is killed while it creates / destroys, at three points of the transaction; then the next create
     for point in ('after_write', 'before_commit', 'after_commit'):
         out.append([('req', 0, (1, 2), False, [C]), ('killed', 0, (1, 2), C, point), ('req', 1, (1, 2), False, [C]),
@@ -875,8 +976,8 @@ def play(run, script):
             _, who, ver, spec, point = ev
             run.killed_request(who, tuple(ver), dict(spec), point)
         else:
-            _, who, ver, cont, specs = ev
-            run.request(who, tuple(ver), cont, [dict(s) for s in specs])
+            _, who, ver, cont, specs = ev[:5]
+            run.request(who, tuple(ver), cont, [dict(s) for s in specs], **(ev[5] if len(ev) > 5 else {}))
 
 
 def ctx_in_child(run):
@@ -893,13 +994,13 @@ def replay_events(run, events):
             skip_restart = False
         elif ev['ev'] == 'killed':
             it = ev['items'][0]
-            spec = {k: v for k, v in it.items() if k in ('op', 'good', 'rich', 't', 'bases', 'tgt', 'w', 'k', 'variant', 'pol', 'prot', 'vs', 'funcs')}
+            spec = {k: v for k, v in it.items() if k in ('op', 'good', 'rich', 't', 'bases', 'tgt', 'w', 'k', 'variant', 'pol', 'prot', 'vs', 'funcs', 'ft', 'off', 'mx')}
             run.killed_request(ev['who'], tuple(ev['ver']), spec, ev['point'])
             skip_restart = True                        # killed_request records its own restart event
         else:
-            specs = [{k: v for k, v in it.items() if k in ('op', 'good', 'rich', 't', 'bases', 'tgt', 'w', 'k', 'variant', 'pol', 'prot', 'vs', 'funcs')}
+            specs = [{k: v for k, v in it.items() if k in ('op', 'good', 'rich', 't', 'bases', 'tgt', 'w', 'k', 'variant', 'pol', 'prot', 'vs', 'funcs', 'ft', 'off', 'mx')}
                      for it in ev['items']]
-            run.request(ev['who'], tuple(ev['ver']), ev['cont'], specs)
+            run.request(ev['who'], tuple(ev['ver']), ev['cont'], specs, locked=bool(ev.get('locked')))
 
 
 # ------------------------------------------------------------------ restart by kill: the server runs in its own process
@@ -1117,11 +1218,18 @@ def run(ctx):
         eng = new_engine(ctx.work)
         try:
             run_ = Runner(ctx, eng)
-            if script is not None:
-                play(run_, script)
-            else:
-                rng = ctx.subrng(seed_name)
-                gen_history(ctx, rng, run_, length, ckp_budget=1 if quick else 2)
+            try:
+                if script is not None:
+                    play(run_, script)
+                else:
+                    rng = ctx.subrng(seed_name)
+                    gen_history(ctx, rng, run_, length, ckp_budget=1 if quick else 2)
+            except Exception as e:          # the driver could not go on with this history (never on the unchanged tree):
+                import traceback         # a broken correspondence; what the oracle saw so far is kept, other histories still run
+                ctx.broken.append({'kind': 'correspondence', 'name': 'histories',
+                                   'detail': 'history driver raised: ' + traceback.format_exc()[-1500:], 'candidates': []})
+                n_ = min(len(run_.coq), len(run_.events))
+                run_.coq, run_.events = run_.coq[:n_], run_.events[:n_]
             histories.append((cp.lst(['(%s, %s)' % p for p in run_.coq], str), run_.events))
             for h in run_.hits:
                 all_hits.append(h)
